@@ -27,6 +27,13 @@ def rand_model(rng):
     nfull = n + (rng.randint(1, 3) if rng.random() < 0.33 else 0)
     S = r.normal(size=(ns, nfull, nfull)) + 1j * r.normal(size=(ns, nfull, nfull))
     S[r.random(size=S.shape) < 0.15] = 0
+    # a user-defined device may hand over a real- or integer-typed matrix (an ideal crossing written with 0/1, a real Hadamard
+    # coupler): the read-outs must still treat the excitation as complex amplitudes
+    kind = rng.random()
+    if kind < 0.12:
+        S = np.round(S.real * 2).astype(int)
+    elif kind < 0.24:
+        S = S.real.copy()
     pins = []
     for k in range(n):
         pins.append(L.Pin(f"p{k}", rng.choice([None, None, "TE", "TM"])))
@@ -48,8 +55,8 @@ def check(ctx, rng, i):
     exc = {p.name: complex(r.normal(), r.normal()) for p in sub}
     rep = {"n": n, "ns": ns, "pins": [[p.basename, p.mode_name] for p in pins], "idx": idx,
            "S": [[[[float(z.real), float(z.imag)] for z in row] for row in Sk] for Sk in S],
-           "exc": {k: [v.real, v.imag] for k, v in exc.items()}, "params": {k: [float(x) for x in v] for k, v in params.items()}}
-    ctx.case(rep, nontrivial=(n >= 2 and not np.allclose(S[0], S[0].T)), tags=[f"n:{n}", f"ns:{ns}"],
+           "dtype": str(S.dtype), "exc": {k: [v.real, v.imag] for k, v in exc.items()}, "params": {k: [float(x) for x in v] for k, v in params.items()}}
+    ctx.case(rep, nontrivial=(n >= 2 and not np.allclose(S[0], S[0].T)), tags=[f"n:{n}", f"ns:{ns}", f"dtype:{S.dtype}"],
              sample={"n": n, "ns": ns, "excited": sorted(exc)} if i < 2 else None)
     return run_case(ctx, m, S, pins, idx, params, exc, rep)
 
@@ -248,6 +255,8 @@ def replay(ctx, data):
         return d <= 1e-9, f"traced read-outs vs running code: max difference {d:.3g}"
     pins = [L.Pin(b, mo) for b, mo in data["pins"]]
     S = np.array([[[complex(z[0], z[1]) for z in row] for row in Sk] for Sk in data["S"]])
+    if np.dtype(data.get("dtype", "complex128")).kind in "if":
+        S = S.real.astype(data["dtype"])
     params = {k: np.array(v) for k, v in data["params"].items()}
     m = L.SolvedModel(pin_dic={p: i for p, i in zip(pins, data["idx"])}, param_dic=params, Smatrix=S.copy())
     exc = {k: complex(v[0], v[1]) for k, v in data["exc"].items()}
